@@ -584,6 +584,8 @@ func suiteCodec(args []string) {
 		}
 	}
 
+	var lastGood interface{}
+	var lastGoodBytes []byte
 	var validMsgs [][2]string // type, hex
 	var wfMsgs [][2]string    // encodings of well-formed values only
 	// group 1: encode of every struct type: well-formed and arbitrary values
@@ -600,6 +602,23 @@ func suiteCodec(args []string) {
 			v := g.genTop(tn)
 			txt := showVal(reflect.ValueOf(v))
 			obs, out := implEncode(v)
+			// C13: a failed Encode must not affect what a later Encode writes: re-encode the last value that encoded
+			// successfully (its bytes were taken before the failure) and compare
+			if out == nil && lastGood != nil {
+				obs2, out2 := implEncode(lastGood)
+				rep.Distribution["enc-after-failure"]++
+				if !bytes.Equal(out2, lastGoodBytes) {
+					viol("enc-after-failure", map[string]interface{}{
+						"what":             "after an Encode that failed, encoding a value again yields other bytes than before the failure",
+						"failing_value":    firstN(txt, 1500),
+						"value":            firstN(showVal(reflect.ValueOf(lastGood)), 1500),
+						"before_failure":   "ok " + hexBytes(lastGoodBytes),
+						"after_failure":    firstN(obs2, 3000),
+						"failing_encode":   firstN(obs, 200)})
+				}
+			} else if out != nil {
+				lastGood, lastGoodBytes = v, append([]byte(nil), out...)
+			}
 			group := "enc-any"
 			if g.wf {
 				group = "enc-wf"
